@@ -35,6 +35,8 @@ try:
         yaml.safe_dump(spec["entries"], f)
 
     def describe(c):
+        if c is None or not hasattr(c, "name"):
+            return {"class": repr(type(c)), "name": None, "inputs": {}, "fields": {}}
         d = {"class": type(c).__module__ + "." + type(c).__qualname__, "name": c.name,
              "inputs": {k: [v.component, v.port] for k, v in c.inputs.items()}}
         d["fields"] = {k: v for k, v in asdict(c).items() if k not in ("name", "inputs", "type", "components", "expose")}
@@ -43,8 +45,14 @@ try:
             d["expose"] = {k: [v.component, v.port] for k, v in c.expose.items()}
         return d
     try:
-        cfgs = read_configs(path)
+        try:
+            cfgs = read_configs(path)
+        except Exception as e:
+            out["load_error"] = type(e).__name__
+            raise
         out["loaded"] = [describe(c) for c in cfgs]
+        if any(c is None or not hasattr(c, "name") for c in cfgs):
+            raise ValueError("entries that are not configurations")
         # round trip
         path2 = os.path.join(tmp, "cfg2.yaml")
         with open(path2, "w") as f:
@@ -63,7 +71,7 @@ try:
         except Exception as e:
             out["roundtrip_full_error"] = type(e).__name__ + ": " + str(e)[:200]
     except Exception as e:
-        out["load_error"] = type(e).__name__
+        out.setdefault("post_load_error", type(e).__name__ + ": " + str(e)[:200])
     sels = []
     for req in spec.get("selections", []):
         try:
